@@ -114,17 +114,26 @@ def infixB (p : List Char) : List Char → Bool
 
 def hasSub (p s : String) : Bool := infixB p.toList s.toList
 
-/-- the `if is_linear … elif "kernel" in head … else` chain: (field of quantization_config, index
-    into the limit list).  As written, `"kernel" in head` is tested before the pointwise / recurrent
-    heads, and every test is a substring test on `layer.name + suffix`. -/
-def headField (isLinear : Bool) (head : String) : String × Int :=
+/-- `role = head[len(layer_name):] if head.startswith(layer_name) else head` (fix F3): the suffix
+    the caller appended to the layer name -/
+def roleOf (head lname : String) : List Char :=
+  if isPrefixB lname.toList head.toList then head.toList.drop lname.toList.length else head.toList
+
+/-- the chain on a role suffix -/
+def roleField (isLinear : Bool) (role : List Char) : String × Int :=
   if isLinear then ("linear", 0)
-  else if hasSub "kernel" head then ("kernel", 0)
-  else if hasSub "bias" head then ("bias", 1)
-  else if hasSub "pointwise_kernel" head then ("pointwise_kernel", 2)
-  else if hasSub "recurrent_kernel" head then ("recurrent_kernel", 2)
-  else if hasSub "recurrent_activation" head then ("recurrent_activation", -1)
+  else if infixB "kernel".toList role then ("kernel", 0)
+  else if infixB "bias".toList role then ("bias", 1)
+  else if infixB "pointwise_kernel".toList role then ("pointwise_kernel", 2)
+  else if infixB "recurrent_kernel".toList role then ("recurrent_kernel", 2)
+  else if infixB "recurrent_activation".toList role then ("recurrent_activation", -1)
   else ("activation", -1)
+
+/-- the `if is_linear … elif "kernel" in role … else` chain: (field of quantization_config, index
+    into the limit list).  `"kernel" in role` is tested before the pointwise / recurrent suffixes
+    (they share the kernel field and limit); the tests look at the suffix only. -/
+def headField (isLinear : Bool) (head lname : String) : String × Int :=
+  roleField isLinear (roleOf head lname)
 
 /-- every (field, index) pair the chain can produce -/
 def fieldIndexTable : List (String × Int) :=
@@ -191,7 +200,7 @@ def hpPick (env : Env) (nm : String) (ql : List String) (log : List HpCall) :
     Result `none` is Python's `(None, -1)`. -/
 def getQuantizer (env : Env) (st : St) (head lname cls : String) (isLinear : Bool) :
     Except Err (Option (String × Int) × St) :=
-  let fi := headField isLinear head
+  let fi := headField isLinear head lname
   match alookup fi.1 env.config with
   | none => .error .keyError
   | some qd =>
@@ -276,10 +285,10 @@ structure S1 where
   kdict : List (String × (Option String × Int)) := []
   /-- `filter_sweep_enabled` -/
   sweep : Bool := false
-  /-- the function-level variable `recurrent_quantizer` (last value assigned in the first loop) -/
-  recQ : Option String := none
-  /-- the function-level variable `pointwise_quantizer` -/
-  pwQ : Option String := none
+  /-- `recurrent_quantizer_dict` (fix F1; most recent first) -/
+  recDict : List (String × Option String) := []
+  /-- `pointwise_quantizer_dict` -/
+  pwDict : List (String × Option String) := []
   deriving Repr, Inhabited
 
 /-- one iteration of the first `for layer in model.layers` loop (lines 348-376) -/
@@ -295,14 +304,14 @@ def loop1Step (env : Env) (tn : Tune) (s : S1) (L : Layer) : Except Err S1 :=
       match (if L.cls ∈ SEQUENCE then
                match request env s1.st L "_recurrent_kernel" with
                | .error e => .error e
-               | .ok (r, st2) => .ok { s1 with st := st2, recQ := (unpack r).1 }
+               | .ok (r, st2) => .ok { s1 with st := st2, recDict := (L.name, (unpack r).1) :: s1.recDict }
              else .ok s1 : Except Err S1) with
       | .error e => .error e
       | .ok s2 =>
         if L.cls ∈ SEPARABLE then
           match request env s2.st L "_pointwise_kernel" with
           | .error e => .error e
-          | .ok (r, st3) => .ok { s2 with st := st3, pwQ := (unpack r).1 }
+          | .ok (r, st3) => .ok { s2 with st := st3, pwDict := (L.name, (unpack r).1) :: s2.pwDict }
         else .ok s2
   else .ok s
 
@@ -324,12 +333,12 @@ def kernelName (cls : String) : String :=
     (key written into `layer_d`, head suffix) -/
 def rolesFor (L : Layer) : List (String × String) :=
   (if L.cls ∈ ["LSTM", "GRU", "Bidirectional"] then
-     [("recurrent_activation", "_recurrent_activation")] else []) ++
+     [("recurrent_activation_quantizer", "_recurrent_activation")] else []) ++
   (if L.cls = "Bidirectional" then
-     [("bias_quantizer", "_bias"), ("activation", "_activation")]
+     [("bias_quantizer", "_bias"), ("activation_quantizer", "_activation")]
    else
      (if L.useBias then [("bias_quantizer", "_bias")] else []) ++
-     (if L.act ≠ "softmax" ∧ L.act ≠ "linear" then [("activation", "_activation")] else []))
+     (if L.act ≠ "softmax" ∧ L.act ≠ "linear" then [("activation_quantizer", "_activation")] else []))
 
 def requestAll (env : Env) (L : Layer) :
     St → List (String × String) → Except Err (List (String × Option String) × St)
@@ -352,6 +361,16 @@ structure S2 where
 
 def TUNABLE2 : List String :=
   ["Dense", "Conv1D", "Conv2D", "Conv2DTranspose", "SeparableConv1D", "SeparableConv2D"]
+
+/-- `layer_d['recurrent_quantizer'] = recurrent_quantizer_dict[layer.name]` and
+    `layer_d['pointwise_quantizer'] = pointwise_quantizer_dict[layer.name]` (KeyError → none) -/
+def extraRoles (s1 : S1) (L : Layer) : Option (List (String × Option String)) :=
+  match (if L.cls ∈ SEQUENCE then (alookup L.name s1.recDict).map (fun q => [("recurrent_quantizer", q)])
+         else some []),
+        (if L.cls ∈ SEPARABLE then (alookup L.name s1.pwDict).map (fun q => [("pointwise_quantizer", q)])
+         else some []) with
+  | some a, some b => some (a ++ b)
+  | _, _ => none
 
 /-- `self.layer_indexes is not None and layer_id not in self.layer_indexes` -/
 def excludedB (tn : Tune) (i : Nat) : Bool :=
@@ -380,15 +399,14 @@ def loop2Step (env : Env) (tn : Tune) (nf : Rat) (s1 : S1) (i : Nat) (s : S2) (L
         let log1 := if perLayer then s.st.log ++ [.choiceF ("network_filters_" ++ L.name) filterRange]
                     else s.st.log
         let L' : Layer := if tun then { L with size := scaled L.size f } else L
-        let base : List (String × Option String) :=
-          [(kernelName L.cls, kq)] ++
-          (if L.cls ∈ SEQUENCE then [("recurrent_quantizer", s1.recQ)] else []) ++
-          (if L.cls ∈ SEPARABLE then [("pointwise_quantizer", s1.pwQ)] else [])
-        match requestAll env L { s.st with log := log1 } (rolesFor L) with
-        | .error e => .error e
-        | .ok (rs, st2) =>
-          .ok { st := st2, qdict := s.qdict ++ [(L.name, .dict (base ++ rs))],
-                arch := s.arch ++ [L'] }
+        match extraRoles s1 L with
+        | none => .error .keyError
+        | some extra =>
+          match requestAll env L { s.st with log := log1 } (rolesFor L) with
+          | .error e => .error e
+          | .ok (rs, st2) =>
+            .ok { st := st2, qdict := s.qdict ++ [(L.name, .dict ((kernelName L.cls, kq) :: extra ++ rs))],
+                  arch := s.arch ++ [L'] }
   else if L.cls = "Reshape" then
     if tn.tuneFilters = "layer" then .error .assertError
     else if tn.tuneFilters = "none" ∨ (alookup L.name env.limit).isNone ∨ tn.exc L.name then .ok skip
